@@ -1212,7 +1212,7 @@ LEVEL_TEXT = ("Proved in Lean 4 over unbounded integers (the C int arithmetic is
               "parse(format) = instant for the LONG, SHORT, HTTP and (to the millisecond) FULL formats for every instant of years 0..9999 (format_parse; "
               "the formatter's month names are keys of the parser's month map); an ISO string with "
               "offset +-hh:mm, +-hhmm or +-hh denotes local -+ offset for every two-digit hh, mm; Date(String) and Date(String, fmt) never read beyond "
-              "the terminator and return invalid or a value, for every byte string (parse_total, parse_fmt_total). Tie to the code: yearFromTime, the "
+              "the terminator and return invalid or a value, for every byte string (parse_total, parse_fmt_total); the double storage: Date(ms/1000.0) is modelled exactly as the dyadic n/2^k (toDouble, integer arithmetic, no Float), it is a nearest binary64 value with a 53-bit significand for every millisecond of years 1..9999, the exact floor(t*1000+0.5) on it (and on any dyadic strictly within half a millisecond) is ms, so split and every format through the double are those of the integer model and FULL parses back to ms (stored_double_is_nearest, stored_double_53bit, roundMs_of_any_close_double, stored_double_shows_ms, format_parse_stored_double; K op dbl compares n, k, the rounding, the fields and FULL with the real double via frexp, python as_integer_ratio as reference). Tie to the code: yearFromTime, the "
               "macros and all tables are regenerated into Lean from src/Date.cpp (G); calc/construct/format/parsers are hand transcriptions compared "
               "with the real library (K) on every generated input, and the library is compared with an independent days-from-civil oracle on every "
               "day of years 1..9999 at three times of day (thorough) and every second of sampled days.")
@@ -1220,4 +1220,4 @@ LEVEL_NOTE = ("Not theorems (validated by K, the harness's days-from-civil oracl
               "theorems are stated for the extended format yyyy-mm-ddThh:mm:ss+-hh[:]mm. Not in the proof: the double arithmetic of Date (floor(t/86400), fractional-day h/m/s extraction, millisecond rounding, "
               "pow(10,1-i)) is abstracted to exact integer milliseconds and checked by the exhaustive scan; int overflow for years beyond +-5.8e6 "
               "(365*(y-1970)) is outside the model and not generated; local-time paths run with TZ=UTC. Trusted: Lean kernel, the clang-AST/regex "
-              "translator in tools/props/c19.py, harness/c19.cpp. Instants are modelled in microseconds with the rounding to the millisecond explicit (roundMs); at exactly 0.5 ms either neighbouring millisecond is accepted, but consistently in all observables (op tieu; a double near year 9999 resolves 30 us). The repair f44eb78 lies below the model's abstraction (roundMs on integer microseconds): it is covered by the harness-side oracles tieu / rtp (model side: ok/range only; tolerance max(1 us, 4 ulp(t)) around the half-millisecond tie, roundMs required elsewhere) and the fp-round / fp-day re-checks, not by a theorem. Three defects found and repaired: Date(str, fmt) read past the end of str (repo 2de0295); seconds and milliseconds were rounded separately, one second off at .9995 s (repo f44eb78); within 0.5 ms before midnight splitUTC/toString took the date from the unrounded and the time from the rounded instant (repo 4c81461).")
+              "translator in tools/props/c19.py, harness/c19.cpp. The stored double of a whole-millisecond instant is modelled exactly and proved to show that millisecond (extension round); what stays validated by K only there is that the floating-point product t*1000+0.5 has the same floor as the exact one (harness fp-round). Doubles that are not whole milliseconds: instants are modelled in microseconds with the rounding to the millisecond explicit (roundMs); at exactly 0.5 ms either neighbouring millisecond is accepted, but consistently in all observables (op tieu; a double near year 9999 resolves 30 us). The repair f44eb78 lies below the model's abstraction (roundMs on integer microseconds): it is covered by the harness-side oracles tieu / rtp (model side: ok/range only; tolerance max(1 us, 4 ulp(t)) around the half-millisecond tie, roundMs required elsewhere) and the fp-round / fp-day re-checks, not by a theorem. Three defects found and repaired: Date(str, fmt) read past the end of str (repo 2de0295); seconds and milliseconds were rounded separately, one second off at .9995 s (repo f44eb78); within 0.5 ms before midnight splitUTC/toString took the date from the unrounded and the time from the rounded instant (repo 4c81461).")
